@@ -537,8 +537,24 @@ impl Gen {
     fn bump(&mut self, k: &str) {
         *self.stats.entry(k.to_string()).or_insert(0) += 1;
     }
+    /// Sample a proptest strategy; strategies with local filters can reject ("Too many local
+    /// rejects"), so retry with the advanced RNG. A persistent failure panics and is absorbed by the
+    /// per-step guard in `main`.
     fn sample<S: Strategy>(&mut self, s: S) -> S::Value {
-        s.new_tree(&mut self.runner).expect("strategy").current()
+        for _ in 0..64 {
+            if let Ok(t) = s.new_tree(&mut self.runner) {
+                return t.current();
+            }
+            // the runner counts local rejects cumulatively and fails every filtered strategy once
+            // the limit is reached: start a fresh runner (seeded from the one PRNG)
+            self.bump("strategy_rejects");
+            let seed = self.rng.bytes(32);
+            self.runner = TestRunner::new_with_rng(
+                PtConfig::default(),
+                TestRng::from_seed(RngAlgorithm::ChaCha, &seed),
+            );
+        }
+        panic!("strategy kept rejecting")
     }
     fn refill_sapling(&mut self) {
         while self.spends.len() < 8 || self.outputs.len() < 8 || self.sbsigs.is_empty() {
@@ -1071,8 +1087,32 @@ fn all_reqs(t: &MTx, coins: &[Coin], idxs: &[usize]) -> Vec<Req> {
     v
 }
 
-fn emit_ctx(tag: u32, t: &MTx, coins: &[Coin], reqs: &[Req]) -> Obs {
-    let o = observe(t, coins, reqs);
+/// Observe the implementation; `Err(true)` = the code under test panicked on a transaction the
+/// generator could build, `Err(false)` = the generator itself could not build it (skipped).
+fn observe_safe(t: &MTx, coins: &[Coin], reqs: &[Req]) -> Result<Obs, bool> {
+    if catch(|| t.authorized()).is_none() || catch(|| t.signing(coins)).is_none() {
+        return Err(false);
+    }
+    catch(|| observe(t, coins, reqs)).ok_or(true)
+}
+fn panic_case(t: &MTx) {
+    match t.version {
+        TxVersion::V5 | TxVersion::V6 => case(format!("CPanicTx {}", coq_tx(t))),
+        TxVersion::V3 | TxVersion::V4 => case(format!("CPanicTx4 {}", coq_tx4(t))),
+        _ => case("CPanicOther".to_string()),
+    }
+}
+
+fn emit_ctx(tag: u32, t: &MTx, coins: &[Coin], reqs: &[Req]) -> Option<Obs> {
+    let o = match observe_safe(t, coins, reqs) {
+        Ok(o) => o,
+        Err(code) => {
+            if code {
+                panic_case(t);
+            }
+            return None;
+        }
+    };
     case(format!(
         "CTx {} {} {} {} {} {} {} {}",
         tag,
@@ -1084,7 +1124,7 @@ fn emit_ctx(tag: u32, t: &MTx, coins: &[Coin], reqs: &[Req]) -> Obs {
         h(&o.shsig),
         coq_sigs(reqs, &o)
     ));
-    o
+    Some(o)
 }
 
 /// Mutation pair. Fields >= 90 mutate the signing context only.
@@ -1172,8 +1212,18 @@ fn emit_mut(g: &mut Gen, t: &MTx, coins: &[Coin], field: u32) -> bool {
         g.bump("mut_noop");
         return false;
     }
-    let o1 = observe(t, coins, &reqs);
-    let o2 = observe(&t2, &coins2, &reqs2);
+    let (o1, o2) = match (observe_safe(t, coins, &reqs), observe_safe(&t2, &coins2, &reqs2)) {
+        (Ok(a), Ok(b)) => (a, b),
+        (a, b) => {
+            if a.err() == Some(true) {
+                panic_case(t);
+            }
+            if b.err() == Some(true) {
+                panic_case(&t2);
+            }
+            return false;
+        }
+    };
     case(format!(
         "CMut {} {} {} {} {} {} {}",
         field,
@@ -1238,8 +1288,18 @@ fn emit_v4_mut(g: &mut Gen, t: &MTx, coins: &[Coin], field: u32, own: bool) -> b
     }
     let r1 = all_reqs(t, coins, &[idx]);
     let r2 = all_reqs(&m, &c, &[idx]);
-    let o1 = observe(t, coins, &r1);
-    let o2 = observe(&m, &c, &r2);
+    let (o1, o2) = match (observe_safe(t, coins, &r1), observe_safe(&m, &c, &r2)) {
+        (Ok(a), Ok(b)) => (a, b),
+        (a, b) => {
+            if a.err() == Some(true) {
+                panic_case(t);
+            }
+            if b.err() == Some(true) {
+                panic_case(&m);
+            }
+            return false;
+        }
+    };
     case(format!(
         "CV4Mut {} {} {} {} {}",
         field,
@@ -1257,10 +1317,18 @@ fn vec_case(zip: u32, expected: &[u8; 32], observed: &[u8; 32]) {
     case(format!("CVec {} {} {}", zip, h(expected), h(observed)));
 }
 
-fn emit_v4_tx(tag: u32, t: &MTx, coins: &[Coin], reqs: &[Req]) -> Obs {
-    let o = observe(t, coins, reqs);
+fn emit_v4_tx(tag: u32, t: &MTx, coins: &[Coin], reqs: &[Req]) -> Option<Obs> {
+    let o = match observe_safe(t, coins, reqs) {
+        Ok(o) => o,
+        Err(code) => {
+            if code {
+                panic_case(t);
+            }
+            return None;
+        }
+    };
     case(format!("CV4Tx {} {} {}", tag, coq_tx4(t), coq_obs4(t, reqs, &o)));
-    o
+    Some(o)
 }
 
 // ---------------------------------------------------------------------------------------------
@@ -1269,7 +1337,9 @@ fn emit_v4_tx(tag: u32, t: &MTx, coins: &[Coin], reqs: &[Req]) -> Obs {
 
 fn main() {
     let a = args();
-    quiet_panics();
+    if std::env::var("C04_LOUD").is_err() {
+        quiet_panics();
+    }
     let mut g = Gen::new(a.seed, 4);
     let thorough = a.thorough() || a.search;
     let mut n_cases = 0u64;
@@ -1299,142 +1369,162 @@ fn main() {
         use zcash_primitives::transaction::tests::data::zip_0244;
         let mut used = 0;
         for tv in zip_0244::make_test_vectors() {
-            let tx = Transaction::read(&tv.tx[..], BranchId::Nu5).expect("vector parses");
-            let t = MTx::of(&tx);
-            let big = t.orch.as_ref().map_or(0, |o| o.acts.len()) + t.sap.as_ref().map_or(0, |s| s.spends.len() + s.outputs.len());
-            if !thorough && (big > 3 || used >= 4) {
-                continue;
+            let step = catch(|| {
+                let tx = Transaction::read(&tv.tx[..], BranchId::Nu5).expect("vector parses");
+                let t = MTx::of(&tx);
+                let big = t.orch.as_ref().map_or(0, |o| o.acts.len()) + t.sap.as_ref().map_or(0, |s| s.spends.len() + s.outputs.len());
+                if !thorough && (big > 3 || used >= 4) {
+                    return;
+                }
+                let coins: Vec<Coin> = tv
+                    .amounts
+                    .iter()
+                    .zip(tv.script_pubkeys.iter())
+                    .map(|(v, s)| (Zatoshis::from_nonnegative_i64(*v).unwrap(), script(s.clone()), script(s.clone())))
+                    .collect();
+                let idxs: Vec<usize> = tv.transparent_input.iter().map(|i| *i as usize).collect();
+                let reqs = all_reqs(&t, &coins, &idxs);
+                // the implementation against the published vector values (judged by the checker, not here)
+                if let Some(o) = emit_ctx(1, &t, &coins, &reqs) {
+                    vec_case(244, &tv.txid, &o.txid);
+                    vec_case(244, &tv.auth_digest, &o.auth);
+                    vec_case(244, &tv.sighash_shielded, &o.shsig);
+                    n_cases += 3;
+                }
+                used += 1;
+                n_cases += 1;
+            });
+            if step.is_none() {
+                g.bump("generator_step_panicked");
             }
-            let coins: Vec<Coin> = tv
-                .amounts
-                .iter()
-                .zip(tv.script_pubkeys.iter())
-                .map(|(v, s)| (Zatoshis::from_nonnegative_i64(*v).unwrap(), script(s.clone()), script(s.clone())))
-                .collect();
-            let idxs: Vec<usize> = tv.transparent_input.iter().map(|i| *i as usize).collect();
-            let reqs = all_reqs(&t, &coins, &idxs);
-            let o = emit_ctx(1, &t, &coins, &reqs);
-            // the implementation agrees with the published vector values (the repo's own test)
-            // the implementation against the published vector values (judged by the checker, not here)
-            vec_case(244, &tv.txid, &o.txid);
-            vec_case(244, &tv.auth_digest, &o.auth);
-            vec_case(244, &tv.sighash_shielded, &o.shsig);
-            n_cases += 3;
-            used += 1;
-            n_cases += 1;
         }
         g.stats.insert("zip244_vectors".into(), used);
     }
 
     // --- structured v5/v6 transactions ---------------------------------------------------------
-    let n_tx = a.budget(100, 1200);
+    let n_tx = a.budget(100, 400);
     for k in 0..n_tx {
-        let v6 = k % 3 == 2;
-        let big = thorough && k % 97 == 0;
-        let uniform = k % 7 != 0;
-        let max_n = if k % 11 == 0 { 3 } else { 2 };
-        let (t, coins) = g.tx(v6, max_n, big, uniform);
-        // every hash type for one input, one random hash type for the others
-        let mut reqs = vec![];
-        if t.n_in() > 0 {
-            let full = g.rng.below(t.n_in() as u64) as usize;
-            for i in 0..t.n_in() {
-                if i == full {
-                    reqs.extend(all_reqs(&t, &coins, &[i]));
-                } else {
+        let step = catch(|| {
+            let v6 = k % 3 == 2;
+            let big = thorough && k % 97 == 0;
+            let uniform = k % 7 != 0;
+            let max_n = if k % 11 == 0 { 3 } else { 2 };
+            let (t, coins) = g.tx(v6, max_n, big, uniform);
+            // every hash type for one input, one random hash type for the others
+            let mut reqs = vec![];
+            if t.n_in() > 0 {
+                let full = g.rng.below(t.n_in() as u64) as usize;
+                for i in 0..t.n_in() {
+                    if i == full {
+                        reqs.extend(all_reqs(&t, &coins, &[i]));
+                    } else {
+                        let ht = *g.rng.pick(&HASH_TYPES);
+                        reqs.push(Req { ht, idx: i, value: coins[i].0, spk: coins[i].1.clone(), code: coins[i].2.clone() });
+                    }
+                }
+                // the SignableInput's own value/script need not repeat the coin list
+                if g.rng.chance(1, 4) {
                     let ht = *g.rng.pick(&HASH_TYPES);
-                    reqs.push(Req { ht, idx: i, value: coins[i].0, spk: coins[i].1.clone(), code: coins[i].2.clone() });
+                    let v = g.zat();
+                    let s = g.script(false);
+                    let c = g.script(false);
+                    reqs.push(Req { ht, idx: full, value: v, spk: s, code: c });
                 }
             }
-            // the SignableInput's own value/script need not repeat the coin list
-            if g.rng.chance(1, 4) {
-                let ht = *g.rng.pick(&HASH_TYPES);
-                let v = g.zat();
-                let s = g.script(false);
-                let c = g.script(false);
-                reqs.push(Req { ht, idx: full, value: v, spk: s, code: c });
+            emit_ctx(if v6 { 3 } else { 2 }, &t, &coins, &reqs);
+            g.bump(if v6 { "tx_v6" } else { "tx_v5" });
+            for (name, present) in [
+                ("with_transparent", t.transp.is_some()),
+                ("with_sapling", t.sap.is_some()),
+                ("with_orchard", t.orch.is_some()),
+                ("with_ironwood", t.iron.is_some()),
+            ] {
+                if present {
+                    g.bump(name);
+                }
             }
+            n_cases += 1;
+        });
+        if step.is_none() {
+            g.bump("generator_step_panicked");
         }
-        emit_ctx(if v6 { 3 } else { 2 }, &t, &coins, &reqs);
-        g.bump(if v6 { "tx_v6" } else { "tx_v5" });
-        for (name, present) in [
-            ("with_transparent", t.transp.is_some()),
-            ("with_sapling", t.sap.is_some()),
-            ("with_orchard", t.orch.is_some()),
-            ("with_ironwood", t.iron.is_some()),
-        ] {
-            if present {
-                g.bump(name);
-            }
-        }
-        n_cases += 1;
     }
 
     // --- the crates' own strategies (large bundles) ---------------------------------------------
-    let n_arb = a.budget(2, 40);
+    let n_arb = a.budget(2, 12);
     for k in 0..n_arb {
-        let branch = if k % 2 == 0 { BranchId::Nu5 } else { BranchId::Nu6_3 };
-        // keep the Coq cost bounded: retry until the transaction is small enough
-        for _ in 0..200 {
-            let tx = g.sample(arb_tx(branch));
-            let t = MTx::of(&tx);
-            let size = t.orch.as_ref().map_or(0, |o| o.acts.len())
-                + t.iron.as_ref().map_or(0, |o| o.acts.len())
-                + t.sap.as_ref().map_or(0, |s| s.spends.len() + s.outputs.len());
-            if size > if thorough { 24 } else { 8 } {
-                continue;
+        let step = catch(|| {
+            let branch = if k % 2 == 0 { BranchId::Nu5 } else { BranchId::Nu6_3 };
+            // keep the Coq cost bounded: retry until the transaction is small enough
+            for _ in 0..200 {
+                let tx = g.sample(arb_tx(branch));
+                let t = MTx::of(&tx);
+                let size = t.orch.as_ref().map_or(0, |o| o.acts.len())
+                    + t.iron.as_ref().map_or(0, |o| o.acts.len())
+                    + t.sap.as_ref().map_or(0, |s| s.spends.len() + s.outputs.len());
+                if size > if thorough { 24 } else { 8 } {
+                    continue;
+                }
+                let coins: Vec<Coin> = (0..t.n_in()).map(|_| g.coin()).collect();
+                let reqs = if t.n_in() > 0 { all_reqs(&t, &coins, &[t.n_in() - 1]) } else { vec![] };
+                emit_ctx(4, &t, &coins, &reqs);
+                g.bump("tx_arb");
+                n_cases += 1;
+                break;
             }
-            let coins: Vec<Coin> = (0..t.n_in()).map(|_| g.coin()).collect();
-            let reqs = if t.n_in() > 0 { all_reqs(&t, &coins, &[t.n_in() - 1]) } else { vec![] };
-            emit_ctx(4, &t, &coins, &reqs);
-            g.bump("tx_arb");
-            n_cases += 1;
-            break;
+        });
+        if step.is_none() {
+            g.bump("generator_step_panicked");
         }
     }
 
     // --- single-field mutations (v5 / v6) --------------------------------------------------------
-    let rounds = a.budget(8, 120);
-    let rounds_v6 = a.budget(2, 40);
+    let rounds = a.budget(8, 36);
+    let rounds_v6 = a.budget(2, 10);
     for r in 0..rounds {
-        for v6 in [false, true] {
-            if v6 && r >= rounds_v6 {
-                continue;
-            }
-            // a transaction that has every bundle, two inputs, two outputs
-            let (mut t, mut coins);
-            loop {
-                let x = g.tx(v6, 2, false, true);
-                t = x.0;
-                coins = x.1;
-                let full = t.n_in() >= 1 + (r % 2) as usize
-                    && t.n_out() >= 1
-                    && t.sap.as_ref().map_or(false, |s| !s.spends.is_empty() && !s.outputs.is_empty())
-                    && t.orch.is_some()
-                    && (!v6 || t.iron.is_some());
-                if full || (r % 5 == 4 && t.n_in() > 0) {
-                    break;
+        let step = catch(|| {
+            for v6 in [false, true] {
+                if v6 && r >= rounds_v6 {
+                    continue;
+                }
+                // a transaction that has every bundle, two inputs, two outputs
+                let (mut t, mut coins);
+                loop {
+                    let x = g.tx(v6, 2, false, true);
+                    t = x.0;
+                    coins = x.1;
+                    let full = t.n_in() >= 1 + (r % 2) as usize
+                        && t.n_out() >= 1
+                        && t.sap.as_ref().map_or(false, |s| !s.spends.is_empty() && !s.outputs.is_empty())
+                        && t.orch.is_some()
+                        && (!v6 || t.iron.is_some());
+                    if full || (r % 5 == 4 && t.n_in() > 0) {
+                        break;
+                    }
+                }
+                for f in TX_FIELDS {
+                    let ok = if f == 4 {
+                        // the version switch needs bundles that both formats can carry
+                        let mut t4 = t.clone();
+                        t4.orch = None;
+                        t4.iron = None;
+                        emit_mut(&mut g, &t4, &coins, f)
+                    } else {
+                        emit_mut(&mut g, &t, &coins, f)
+                    };
+                    if ok {
+                        n_cases += 1;
+                    }
                 }
             }
-            for f in TX_FIELDS {
-                let ok = if f == 4 {
-                    // the version switch needs bundles that both formats can carry
-                    let mut t4 = t.clone();
-                    t4.orch = None;
-                    t4.iron = None;
-                    emit_mut(&mut g, &t4, &coins, f)
-                } else {
-                    emit_mut(&mut g, &t, &coins, f)
-                };
-                if ok {
-                    n_cases += 1;
-                }
-            }
+        });
+        if step.is_none() {
+            g.bump("generator_step_panicked");
         }
     }
 
     // --- v1-v4 -----------------------------------------------------------------------------------
-    let n_v4 = a.budget(40, 400);
+    let n_v4 = a.budget(40, 200);
     let old = [
         BranchId::Sprout,
         BranchId::Overwinter,
@@ -1444,21 +1534,26 @@ fn main() {
         BranchId::Canopy,
     ];
     for k in 0..n_v4 {
-        let branch = old[(k % 6) as usize];
-        let tx = g.sample(arb_tx(branch));
-        let bytes = ser(&tx);
-        case(format!(
-            "CV4Txid {} {} {} {}",
-            ver_code(tx.version()),
-            u32::from(branch),
-            h(tx.txid().as_ref()),
-            h(&sha256d(&bytes))
-        ));
-        g.bump(&format!("v{}_txid", ver_code(tx.version())));
-        n_cases += 1;
-        // reading the bytes back gives the same txid
-        let back = Transaction::read(&bytes[..], branch).expect("re-read");
-        assert_eq!(back.txid(), tx.txid());
+        let step = catch(|| {
+            let branch = old[(k % 6) as usize];
+            let tx = g.sample(arb_tx(branch));
+            let bytes = ser(&tx);
+            case(format!(
+                "CV4Txid {} {} {} {}",
+                ver_code(tx.version()),
+                u32::from(branch),
+                h(tx.txid().as_ref()),
+                h(&sha256d(&bytes))
+            ));
+            g.bump(&format!("v{}_txid", ver_code(tx.version())));
+            n_cases += 1;
+            // reading the bytes back gives the same txid
+            let back = Transaction::read(&bytes[..], branch).expect("re-read");
+            assert_eq!(back.txid(), tx.txid());
+        });
+        if step.is_none() {
+            g.bump("generator_step_panicked");
+        }
     }
     {
         use zcash_primitives::transaction::tests::data::{zip_0143, zip_0243};
@@ -1474,82 +1569,94 @@ fn main() {
             .collect();
         let mut js_mut = 0;
         for (txb, br, code, tin, ht, amount, expected) in vecs {
-            let tx = Transaction::read(&txb[..], br).expect("vector parses");
-            assert_eq!(ser(&tx), txb);
-            case(format!(
-                "CV4Txid {} {} {} {}",
-                ver_code(tx.version()),
-                u32::from(br),
-                h(tx.txid().as_ref()),
-                h(&sha256d(&txb))
-            ));
-            n += 1;
-            n_cases += 1;
-            if !matches!(tx.version(), TxVersion::V3 | TxVersion::V4) {
-                continue;
-            }
-            // the vector's own signature hash through the ZIP 143/243 model
-            let t = MTx::of(&tx);
-            let coins: Vec<Coin> = (0..t.n_in()).map(|_| g.coin()).collect();
-            let value = Zatoshis::from_nonnegative_i64(amount).unwrap();
-            let reqs: Vec<Req> = tin
-                .iter()
-                .map(|i| Req { ht: ht as u8, idx: *i as usize, value, spk: g.script(false), code: code.clone() })
-                .collect();
-            let o = emit_v4_tx(1, &t, &coins, &reqs);
-            match tin {
-                Some(_) => vec_case(if br == BranchId::Overwinter { 143 } else { 243 }, &expected, &o.sigs[0].unwrap_or([0; 32])),
-                None => vec_case(if br == BranchId::Overwinter { 143 } else { 243 }, &expected, &o.shsig),
-            }
-            n_cases += 2;
-            // JoinSplit fields can only be mutated on these transactions
-            if t.sprout.as_ref().map_or(false, |b| !b.joinsplits.is_empty()) && js_mut < a.budget(2, 8) {
-                js_mut += 1;
-                for f in [85u32, 86, 87] {
-                    if emit_v4_mut(&mut g, &t, &coins, f, true) {
-                        n_cases += 1;
+            let step = catch(|| {
+                let tx = Transaction::read(&txb[..], br).expect("vector parses");
+                assert_eq!(ser(&tx), txb);
+                case(format!(
+                    "CV4Txid {} {} {} {}",
+                    ver_code(tx.version()),
+                    u32::from(br),
+                    h(tx.txid().as_ref()),
+                    h(&sha256d(&txb))
+                ));
+                n += 1;
+                n_cases += 1;
+                if !matches!(tx.version(), TxVersion::V3 | TxVersion::V4) {
+                    return;
+                }
+                // the vector's own signature hash through the ZIP 143/243 model
+                let t = MTx::of(&tx);
+                let coins: Vec<Coin> = (0..t.n_in()).map(|_| g.coin()).collect();
+                let value = Zatoshis::from_nonnegative_i64(amount).unwrap();
+                let reqs: Vec<Req> = tin
+                    .iter()
+                    .map(|i| Req { ht: ht as u8, idx: *i as usize, value, spk: g.script(false), code: code.clone() })
+                    .collect();
+                if let Some(o) = emit_v4_tx(1, &t, &coins, &reqs) {
+                    let zip = if br == BranchId::Overwinter { 143 } else { 243 };
+                    match tin {
+                        Some(_) => vec_case(zip, &expected, &o.sigs[0].unwrap_or([0; 32])),
+                        None => vec_case(zip, &expected, &o.shsig),
                     }
                 }
+                n_cases += 2;
+                // JoinSplit fields can only be mutated on these transactions
+                if t.sprout.as_ref().map_or(false, |b| !b.joinsplits.is_empty()) && js_mut < a.budget(2, 8) {
+                    js_mut += 1;
+                    for f in [85u32, 86, 87] {
+                        if emit_v4_mut(&mut g, &t, &coins, f, true) {
+                            n_cases += 1;
+                        }
+                    }
+                }
+            });
+            if step.is_none() {
+                g.bump("generator_step_panicked");
             }
         }
         g.stats.insert("zip143_243_vectors".into(), n);
     }
     // v3/v4 single-field mutations (transparent + Sapling; txid and ZIP 143/243 sighash)
-    let v4_rounds = a.budget(6, 60);
+    let v4_rounds = a.budget(6, 24);
     for r in 0..v4_rounds {
-        let v4 = r % 3 != 0;
-        let (mut t, mut coins);
-        loop {
-            let x = g.tx(false, 2, false, true);
-            t = x.0;
-            coins = x.1;
-            if t.n_in() == 2 && t.n_out() >= 1 + (r % 2) as usize && t.sap.as_ref().map_or(false, |s| !s.spends.is_empty() && !s.outputs.is_empty()) {
-                break;
-            }
-        }
-        t.orch = None;
-        if v4 {
-            t.version = TxVersion::V4;
-            t.branch = *g.rng.pick(&[BranchId::Sapling, BranchId::Blossom, BranchId::Heartwood, BranchId::Canopy]);
-        } else {
-            t.version = TxVersion::V3;
-            t.branch = BranchId::Overwinter;
-            t.sap = None;
-        }
-        {
-            let mut reqs = all_reqs(&t, &coins, &[(r % 2) as usize]);
-            let ht = *g.rng.pick(&HASH_TYPES);
-            let other = 1 - (r % 2) as usize;
-            reqs.push(Req { ht, idx: other, value: coins[other].0, spk: coins[other].1.clone(), code: coins[other].2.clone() });
-            emit_v4_tx(2, &t, &coins, &reqs);
-            n_cases += 1;
-        }
-        for f in [1u32, 2, 10, 11, 12, 13, 20, 21, 30, 31, 32, 33, 34, 35, 40, 41, 42, 43, 44, 45, 46, 47, 48, 49, 94, 95, 97] {
-            for own in [true, false] {
-                if (own || (10..=21).contains(&f) || f >= 90) && emit_v4_mut(&mut g, &t, &coins, f, own) {
-                    n_cases += 1;
+        let step = catch(|| {
+            let v4 = r % 3 != 0;
+            let (mut t, mut coins);
+            loop {
+                let x = g.tx(false, 2, false, true);
+                t = x.0;
+                coins = x.1;
+                if t.n_in() == 2 && t.n_out() >= 1 + (r % 2) as usize && t.sap.as_ref().map_or(false, |s| !s.spends.is_empty() && !s.outputs.is_empty()) {
+                    break;
                 }
             }
+            t.orch = None;
+            if v4 {
+                t.version = TxVersion::V4;
+                t.branch = *g.rng.pick(&[BranchId::Sapling, BranchId::Blossom, BranchId::Heartwood, BranchId::Canopy]);
+            } else {
+                t.version = TxVersion::V3;
+                t.branch = BranchId::Overwinter;
+                t.sap = None;
+            }
+            {
+                let mut reqs = all_reqs(&t, &coins, &[(r % 2) as usize]);
+                let ht = *g.rng.pick(&HASH_TYPES);
+                let other = 1 - (r % 2) as usize;
+                reqs.push(Req { ht, idx: other, value: coins[other].0, spk: coins[other].1.clone(), code: coins[other].2.clone() });
+                emit_v4_tx(2, &t, &coins, &reqs);
+                n_cases += 1;
+            }
+            for f in [1u32, 2, 10, 11, 12, 13, 20, 21, 30, 31, 32, 33, 34, 35, 40, 41, 42, 43, 44, 45, 46, 47, 48, 49, 94, 95, 97] {
+                for own in [true, false] {
+                    if (own || (10..=21).contains(&f) || f >= 90) && emit_v4_mut(&mut g, &t, &coins, f, own) {
+                        n_cases += 1;
+                    }
+                }
+            }
+        });
+        if step.is_none() {
+            g.bump("generator_step_panicked");
         }
     }
 
